@@ -454,6 +454,35 @@ def run_harness(exe, args, timeout=1800, env=None, cwd=None):
         return -9, 'timeout'
 
 
+def sanitize_trace(path):
+    """A call that corrupts memory can make the recorder write an event that is not valid UTF-8 / JSON.  Such a line is
+    evidence of a crash inside the call (the recorder itself never writes one on well-behaved code); it is replaced by a
+    Crash event so that the trace stays machine-readable and TLC reports the crash instead of the driver failing."""
+    if not os.path.exists(path):
+        return 0
+    raw = open(path, 'rb').read().split(b'\n')
+    bad = 0
+    out = []
+    for ln in raw:
+        if not ln.strip():
+            continue
+        try:
+            txt = ln.decode('utf-8')
+            o = json.loads(txt)
+            if not isinstance(o, dict) or 'e' not in o:
+                raise ValueError('not an event')
+            out.append(txt)
+        except Exception:
+            bad += 1
+            prefix = ''.join(chr(c) if 32 <= c < 127 and c not in (34, 92) else '?' for c in ln[:200])
+            o = {'e': 'Crash', 'what': 'recorder wrote an unparsable event (memory corrupted during the call)', 'raw': prefix}
+            out.append(json.dumps(o, separators=(',', ':')))
+    if bad:
+        with open(path, 'w') as f:
+            f.write('\n'.join(out) + '\n')
+    return bad
+
+
 def run_recorder(exe, infile, outfile, extra=(), nitems=None, timeout=1800):
     """Run a recorder harness over an input file; restart after a fatal signal at the next item so
     that a crash is one Crash event, not a truncated trace."""
@@ -461,6 +490,7 @@ def run_recorder(exe, infile, outfile, extra=(), nitems=None, timeout=1800):
     guard = 0
     while True:
         rc, out = run_harness(exe, ['--in', infile, '--out', outfile, '--start', str(start)] + list(extra), timeout=timeout)
+        sanitize_trace(outfile)
         if rc == 0:
             return
         if rc in (3, 4):  # crash / per-call timeout captured by the harness: continue after that item
